@@ -36,6 +36,39 @@ def positions(inp, res):
     return out
 
 
+def do_contains(top, a, inst, k, t):
+    it = mk_item(k, t)
+    try:
+        if isinstance(top, SpecifierSet):
+            if inst == "N" and a == "N" and len(t) % 2: r = top.contains(it)
+            elif inst == "N": r = top.contains(it, prereleases=TRI[a])
+            else: r = top.contains(it, prereleases=TRI[a], installed=TRI[inst])
+        else:
+            r = top.contains(it, prereleases=TRI[a]) if not (a == "N" and len(t) % 2) else top.contains(it)
+        return b(r) if r is True or r is False else "!nonbool"
+    except InvalidVersion: return "E"
+
+
+def do_in(top, k, t):
+    try:
+        r = mk_item(k, t) in top
+        return b(r) if r is True or r is False else "!nonbool"
+    except InvalidVersion: return "E"
+
+
+def do_filter(top, a, n, prs):
+    items = [mk_item(prs[2 * k], prs[2 * k + 1]) for k in range(int(n))]
+    # the iterable kind is a function of the case text: a list, a one-shot iterator, a generator or a tuple must all do
+    sel = (sum(len(x) for x in prs) + int(n)) % 4
+    feed = [items, iter(items), (x for x in items), tuple(items)][sel]
+    try:
+        res = list(top.filter(feed, prereleases=TRI[a])) if not (a == "N" and int(n) % 2) else list(top.filter(feed))
+        pos = positions(items, res)
+        if pos is None: return "[!not-the-input-objects-in-input-order]"
+        return "[" + ".".join("%d%s" % (p, prs[2 * p]) for p in pos) + "]"
+    except InvalidVersion: return "[E]"
+
+
 def run_prog(args, hook=None):
     stack, out, i = [], [], 0
     def take(n):
@@ -71,35 +104,11 @@ def run_prog(args, hook=None):
             elif op == "P":
                 o, = take(1); stack[-1].prereleases = TRI[o]
             elif op == "c":
-                a, inst, k, t = take(4); top = stack[-1]; it = mk_item(k, t)
-                try:
-                    if isinstance(top, SpecifierSet):
-                        if inst == "N" and a == "N" and len(t) % 2: r = top.contains(it)
-                        elif inst == "N": r = top.contains(it, prereleases=TRI[a])
-                        else: r = top.contains(it, prereleases=TRI[a], installed=TRI[inst])
-                    else:
-                        r = top.contains(it, prereleases=TRI[a]) if not (a == "N" and len(t) % 2) else top.contains(it)
-                    out.append(b(r) if r is True or r is False else "!nonbool")
-                except InvalidVersion: out.append("E")
+                a, inst, k, t = take(4); out.append(do_contains(stack[-1], a, inst, k, t))
             elif op == "in":
-                k, t = take(2)
-                try:
-                    r = mk_item(k, t) in stack[-1]
-                    out.append(b(r) if r is True or r is False else "!nonbool")
-                except InvalidVersion: out.append("E")
+                k, t = take(2); out.append(do_in(stack[-1], k, t))
             elif op == "f":
-                a, n = take(2); prs = take(2 * int(n))
-                items = [mk_item(prs[2 * k], prs[2 * k + 1]) for k in range(int(n))]
-                top = stack[-1]
-                # the iterable kind is a function of the case text: a list, a one-shot iterator, a generator or a tuple must all do
-                sel = (sum(len(x) for x in prs) + int(n)) % 4
-                feed = [items, iter(items), (x for x in items), tuple(items)][sel]
-                try:
-                    res = list(top.filter(feed, prereleases=TRI[a])) if not (a == "N" and int(n) % 2) else list(top.filter(feed))
-                    pos = positions(items, res)
-                    if pos is None: out.append("[!not-the-input-objects-in-input-order]")
-                    else: out.append("[" + ".".join("%d%s" % (p, prs[2 * p]) for p in pos) + "]")
-                except InvalidVersion: out.append("[E]")
+                a, n = take(2); prs = take(2 * int(n)); out.append(do_filter(stack[-1], a, n, prs))
             elif op == "eqs":
                 k, t = take(2); top = stack[-1]
                 try:
@@ -122,6 +131,56 @@ def run_prog(args, hook=None):
     except Stop:
         pass
     if hook is not None: hook(stack)
+    return ";".join(out)
+
+
+def run_world(args):
+    """s.world: Specifier objects (cells) and sets numbered in order of creation; a set built with L holds the very cell objects, so an
+    assignment through the harness's own reference to a cell (M) must be seen through every set holding it, also through a & b."""
+    cells, sets, out, i = [], [], [], 0
+    def take(n):
+        nonlocal i
+        r = args[i:i + n]; i += n
+        if len(r) != n: raise KeyError("bad program")
+        return r
+    try:
+        while i < len(args):
+            op, = take(1)
+            if op == "X":
+                o, t = take(2)
+                try: cells.append(Specifier(t, prereleases=TRI[o]))
+                except InvalidSpecifier: out.append("!E"); raise Stop
+            elif op == "L":
+                o, n = take(2); addrs = [int(x) for x in take(int(n))]
+                sets.append(SpecifierSet([cells[a] for a in addrs], prereleases=TRI[o]))
+            elif op == "&":
+                x, y = take(2)
+                try: sets.append(sets[int(x)] & sets[int(y)])
+                except ValueError: out.append("!V"); raise Stop
+            elif op == "P":
+                x, o = take(2); sets[int(x)].prereleases = TRI[o]
+            elif op == "M":
+                a, o = take(2); cells[int(a)].prereleases = TRI[o]
+            elif op == "c":
+                x, a, inst, k, t = take(5); out.append(do_contains(sets[int(x)], a, inst, k, t))
+            elif op == "in":
+                x, k, t = take(3); out.append(do_in(sets[int(x)], k, t))
+            elif op == "f":
+                x, a, n = take(3); prs = take(2 * int(n)); out.append(do_filter(sets[int(x)], a, n, prs))
+            elif op == "pre":
+                x, = take(1); out.append(tri(sets[int(x)].prereleases))
+            elif op == "str":
+                x, = take(1); out.append(str(sets[int(x)]))
+            elif op == "xc":
+                a, arg, k, t = take(4); out.append(do_contains(cells[int(a)], arg, "N", k, t))
+            elif op == "xf":
+                a, arg, n = take(3); prs = take(2 * int(n)); out.append(do_filter(cells[int(a)], arg, n, prs))
+            elif op == "xpre":
+                a, = take(1); out.append(tri(cells[int(a)].prereleases))
+            else:
+                raise KeyError(op)
+    except Stop:
+        pass
     return ";".join(out)
 
 
@@ -302,6 +361,7 @@ def law_reparse(args):
 
 def observe(cmd, args):
     if cmd == "s.run": return run_prog(args)
+    if cmd == "s.world": return run_world(args)
     if cmd == "law.s.c05": return law_c05(args)
     if cmd == "law.s.c06": return law_c06(args)
     if cmd == "law.s.reparse": return law_reparse(args)
